@@ -13,9 +13,13 @@ import (
 )
 
 func ruleText(thorough bool) string {
-	reduced := "byte-level classes (every-offset truncation, byte substitution) run on the plain bases only, in this tier not on ODT, PPTX, EPUB2 (same archive/zip + encoding/xml + x/net/html layers as DOCX, XLSX, EPUB3, HTML, which get them), through Text, ToMarkdown, PageCount (PDF; Chunks is a prefix of ToMarkdown there) or Text (other formats: every entry re-parses the whole container first) + the matching raw parsers; doubles: all pairs of structural faults (classes 2-6) within the same PDF object (inside a content stream or CMap: the same line, i.e. one operator with its operands; inside an xref table: the same entry line) / ZIP record, and within the same XML/HTML tag all pairs with at least one numeric fault (two numeric attributes of one element, number + delimiter), run through Text, PageCount (PDF) or Text (other formats; two numeric attributes of one element: Text, ToMarkdown, Chunks) + the matching raw parsers; "
+	reduced := "QUICK TIER BOUNDS: every single fault of classes 1-8 on every base at its stated sites, with these reductions of the entry list / site set: " +
+		"(a) byte-level classes (every-offset truncation, byte substitution) only on the plain bases and there not on ODT, PPTX, EPUB2 (same archive/zip + encoding/xml + x/net/html layers as DOCX, XLSX, EPUB3, HTML), through Text, ToMarkdown, PageCount (PDF; Chunks is a prefix of ToMarkdown) or Text (other formats) + the matching raw parsers; " +
+		"(b) raw PDF truncation at token boundaries runs the full entry list only where an object, stream or xref section begins or ends, elsewhere the reduced list; truncation of a ZIP member at its token boundaries runs Text only; (c) delimiter faults inside ZIP members run Text, ToMarkdown, Chunks, reader.API instead of the full list (numeric, reference, drop/duplicate, stream and nesting faults always run the full list); " +
+		"(d) doubles: only pairs of faults in the SAME group - the same PDF object (inside a content stream or CMap: the same line = one operator with its operands; inside an xref table: the same entry line), the same XML/HTML tag - in which at least one fault is numeric or a retargeted reference/offset, numeric replacements restricted to 0, -1, 2147483648; no doubles in the binary ZIP header records; run through Text, PageCount (PDF) or Text (other formats; two numeric attributes of one element: Text, ToMarkdown, Chunks) + the matching raw parsers. " +
+		"Everything left out here (other same-group pairs, the full entry lists, byte-level faults on ODT/PPTX/EPUB2, all cross-group pairs) is what the thorough tier adds; no double fault across two objects / members / tags is covered by quick. "
 	if thorough {
-		reduced = "byte substitutions and the remaining truncations run Text, ToMarkdown, Chunks, PageCount + the matching raw parsers; doubles: all pairs of structural faults (classes 2-6) within the same PDF object (inside a content stream or CMap: the same line, i.e. one operator with its operands; inside an xref table: the same entry line) / ZIP record / XML tag, then all remaining pairs of the same layer until the internal time budget is used up, run through Text, Chunks, PageCount + the matching raw parsers; "
+		reduced = "THOROUGH TIER BOUNDS: every single fault with the full entry list (byte-level classes: Text, ToMarkdown, Chunks, PageCount + the matching raw parsers, on all plain bases); doubles: ALL pairs of structural faults (classes 2-6, all five numeric values) within the same group (PDF object / content-stream line / xref entry line / ZIP record / XML tag), then the cross-group pairs of the same layer base by base until the internal time budget (11 min) is used up - which bases were not completed is listed in caps_hit, so exhaustive=false; run through Text, Chunks, PageCount + the matching raw parsers. "
 	}
 	return "field-inventory bases (structural classes only; the inventory field -> base is in the evidence note field_inventory): pdf-rich, pdf-rev3, pdf-rev3x, docx-rich, odt-rich, xlsx-rich, pptx-rich, epub-rich, html-rich. Numeric class also tries 1048576; class 8 = nesting amplifier (every PDF '[' x4096, '<<' x2048, every HTML/XHTML start tag x3000; singles only). Plain bases: 9 generated PDFs (classic xref with a marked-content dictionary and a TJ array in the content; uncompressed xref stream+object stream; xref stream+object streams+Flate; Type0/ToUnicode; indirect /Length+indirect Resources; two revisions+depth-2 page tree; Flate+PNG predictor+xref stream; nested Form XObjects; embedded TrueType program), DOCX, ODT, XLSX, PPTX, EPUB2, EPUB3, HTML (0.6-7 KB each). " +
 		"Fault catalogue, applied at EVERY site (no sampling): (1) truncation at every byte offset of the file and at every token boundary of every ZIP member / decoded PDF stream (container rebuilt consistently); (2) every maximal digit run -> 0, -1, 2147483648, 9223372036854775807, every binary ZIP header field -> 0, all-ones, high-bit, max-positive; " +
@@ -26,6 +30,30 @@ func ruleText(thorough bool) string {
 		"(core.Parser.ParseIndirectObject/ParseObject on the object, XRefParser.ParseXRefFromEOF/ParseAllXRefs on the file, contentstream.Parse + text.ExtractFromBytes on a content stream, font.ParseToUnicodeCMap on a CMap, Stream.Decode/ObjectStream on Flate data); " + reduced +
 		"every PDF-only method is also called on every non-PDF base (unfaulted, empty, cut in half). distinct = distinct descriptors (base, part, fault class, site, replacement, entry); non-trivial = at least one fault applied. " +
 		"Oracle: the call returns a value or an error; violation = Go panic (signature panic@first tabula frame), blown step/depth/allocation budget (steps@outermost function on the stack with a hot loop, depth@most frequent function on the stack, alloc@make site), worker death, 300 s backstop."
+}
+
+// quickPair selects the same-group doubles of the quick tier (thorough runs all of them):
+// at least one of the two faults is numeric or a retargeted reference/offset (two damaged delimiters
+// in one object or tag only break the syntax again), numeric replacements are 0, -1 and 2147483648
+// (9223372036854775807 and 1048576 stay single faults), and the binary header records of the ZIP
+// container (archive/zip's own parsing) get no doubles.
+func quickPair(bi *baseInfo, x, y edit) bool {
+	valued := func(e edit) bool {
+		switch {
+		case isNum(e):
+			return e.val == "0" || e.val == "-1" || e.val == "2147483648"
+		case e.class == "ref" || e.class == "prev" || e.class == "startxref" || e.class == "xrefent":
+			return true
+		}
+		return false
+	}
+	if bi.b.kind == "zip" && bi.parts[x.part].kind == "raw" {
+		return false
+	}
+	if isNum(x) && !valued(x) || isNum(y) && !valued(y) {
+		return false
+	}
+	return valued(x) || valued(y)
 }
 
 func isNum(e edit) bool { return strings.HasPrefix(e.class, "num") }
@@ -72,12 +100,7 @@ func (r *runner) pairs(bi *baseInfo, all []edit, cross bool) {
 					if !compatible(x, y) {
 						continue
 					}
-					// quick, XML/HTML tags: two numeric attributes of one element, or a number and a
-					// delimiter; delimiter+delimiter in one tag only breaks the tag again (thorough)
-					if !r.e.Thorough() && bi.b.kind != "pdf" && bi.parts[x.part].kind != "raw" && !isNum(x) && !isNum(y) {
-						continue
-					}
-					if !r.e.Thorough() && bi.b.kind == "html" && !isNum(x) && !isNum(y) {
+					if !r.e.Thorough() && !quickPair(bi, x, y) {
 						continue
 					}
 					eds := []edit{x, y}
@@ -131,7 +154,13 @@ func (r *runner) singles(bi *baseInfo, eds []edit, level string) {
 	}
 	for _, ed := range eds {
 		one := []edit{ed}
-		r.exec(bi, one, r.entriesFor(bi, one, level))
+		lv := level
+		// quick, ZIP members: a damaged delimiter mostly ends in the XML decoder; four entry points
+		// (the three output paths + the reader's own API) instead of all of them
+		if !r.e.Thorough() && bi.b.kind == "zip" && ed.class == "delim" {
+			lv = "mid"
+		}
+		r.exec(bi, one, r.entriesFor(bi, one, lv))
 	}
 }
 
@@ -150,7 +179,7 @@ func (r *runner) subs(bi *baseInfo, pi int, text []byte, groupOf func(int) strin
 	}
 }
 
-func (r *runner) truncs(bi *baseInfo, pi int, text []byte, full map[int]bool, everyByte bool, groupOf func(int) string) {
+func (r *runner) truncs(bi *baseInfo, pi int, text []byte, full map[int]bool, tokLevel func(int) string, everyByte bool, groupOf func(int) string) {
 	if r.phase != 1 {
 		return
 	}
@@ -159,6 +188,9 @@ func (r *runner) truncs(bi *baseInfo, pi int, text []byte, full map[int]bool, ev
 		class := "truncb"
 		if full[off] {
 			level, class = "full", "trunc"
+			if tokLevel != nil && !r.e.Thorough() {
+				level = tokLevel(off)
+			}
 		} else if !everyByte || !r.byteLevel(bi) {
 			continue
 		}
@@ -258,7 +290,21 @@ func (r *runner) enumPDF(bi *baseInfo, phase int) {
 			full[sp.ds], full[sp.de] = true, true
 		}
 	}
-	r.truncs(bi, 0, data, full, true, groupOf)
+	// quick: the full entry list where an object, a stream or an xref section begins or ends; at the
+	// token boundaries inside them the reduced list (the file is cut before its xref either way)
+	top := map[int]bool{}
+	for _, sp := range spans {
+		top[sp.s] = true
+		if sp.de > sp.ds {
+			top[sp.ds], top[sp.de] = true, true
+		}
+	}
+	r.truncs(bi, 0, data, full, func(off int) string {
+		if top[off] {
+			return "full"
+		}
+		return "reduced"
+	}, true, groupOf)
 
 	// (2)(3)(5) on the raw bytes
 	S = append(S, structuralEdits(0, data, true, nobj, skip, groupOf, nil)...)
@@ -362,7 +408,7 @@ func (r *runner) enumPDF(bi *baseInfo, phase int) {
 			tb[off] = true
 		}
 		// truncation at every token boundary of the decoded data, /Length and offsets consistent
-		r.truncs(bi, pi, p.text, tb, false, g)
+		r.truncs(bi, pi, p.text, tb, nil, false, g)
 		if !p.xs {
 			o := b.file.Revs[p.rev].Objs[p.idx]
 			if o.Stream == nil || !bytes.Contains([]byte(o.Stream.Dict), []byte("/Filter")) {
@@ -413,7 +459,7 @@ func (r *runner) enumZip(bi *baseInfo, phase int) {
 	for _, d := range datas {
 		full[d.s], full[d.e] = true, true
 	}
-	r.truncs(bi, 0, data, full, true, groupOf)
+	r.truncs(bi, 0, data, full, nil, true, groupOf)
 
 	for _, f := range fields {
 		var vals [][2]string
@@ -469,7 +515,7 @@ func (r *runner) enumZip(bi *baseInfo, phase int) {
 			tb[off] = true
 		}
 		g := xmlGroup(p.text)
-		r.truncs(bi, pi, p.text, tb, false, g)
+		r.truncs(bi, pi, p.text, tb, func(int) string { return "reduced" }, false, g) // quick: a cut member is malformed XML
 		r.subs(bi, pi, p.text, g)
 	}
 	r.pairs(bi, S, phase == 2)
@@ -483,7 +529,7 @@ func (r *runner) enumHTML(bi *baseInfo, phase int) {
 	for _, off := range tokenBoundaries(data, nil, "<>\"=/&;") {
 		tb[off] = true
 	}
-	r.truncs(bi, 0, data, tb, true, g)
+	r.truncs(bi, 0, data, tb, nil, true, g)
 	S := structuralEdits(0, data, false, 0, nil, g, nil)
 	S = append(S, nestEdits(0, data, false, nil, g)...)
 	r.singles(bi, S, "full")
